@@ -11,6 +11,7 @@ import WD.Driver.C12
 import WD.Driver.C18
 import WD.Driver.C20
 import WD.Driver.Pipe
+import WD.Driver.C19
 open WD.Driver WD.Proto
 
 def handle (line : String) : String :=
@@ -22,6 +23,7 @@ def handle (line : String) : String :=
   | "dq" :: ts => c17Line ts
   | "pipe" :: ts => pipeLine ts
   | "pipespec" :: ts => pipeSpecLine ts
+  | "evpath" :: ts => c19Line ts
   | "inodec" :: ts => c20Line "inodec" ts
   | "windec" :: ts => c20Line "windec" ts
   | "deb" :: ts => c18Line ts
